@@ -52,6 +52,6 @@ MCFairSpecNoWatch ==
     /\ \A s \in Streams : WF_mcvars(H(SetService(s) \/ RateCheck(s) \/ Reserve(s)))
     /\ \A s \in Streams : WF_mcvars(H(Handle(s)))
     /\ \A s \in Streams : WF_mcvars(H(\E go \in {"reserve", "end"} : StoreAnswers(s, go)))
-    /\ \A s \in Streams : WF_mcvars(H(\E how \in {"served", "failed", "panicked"} : Finish(s, how)))
+    /\ \A s \in Streams : WF_mcvars(H(\E how \in Hows : Finish(s, how)))
     /\ WF_mcvars(H(Tick))
 =============================================================================
